@@ -47,6 +47,7 @@ type c14Server struct {
 	delayMs   int
 	errEvery  int // every n-th request of a key fails (0 = never)
 	counts    map[string]int
+	onRequest func() // called when a request has arrived, before it is delayed
 }
 
 func (s *c14Server) log(kind, key string, ok bool) int64 {
@@ -94,6 +95,9 @@ func (s *c14Server) ServeHTTP(w http.ResponseWriter, r *http.Request) {
 		}
 	}
 	n := s.log("S", key, true)
+	if s.onRequest != nil {
+		s.onRequest()
+	}
 	s.mu.Lock()
 	s.counts[key]++
 	cnt := s.counts[key]
@@ -687,10 +691,13 @@ func c14Cancelled(r *hx.Run) {
 	defer fg.Close(reg)
 	for _, lb := range []time.Duration{time.Hour, 6 * time.Hour} {
 		ctx, cancel := context.WithCancel(context.Background())
-		go func() {
-			time.Sleep(time.Duration(5+r.Rng.Intn(20)) * time.Millisecond)
-			cancel()
-		}()
+		// the caller gives up while the server is working on its first request
+		srv.onRequest = func() {
+			go func() {
+				time.Sleep(5 * time.Millisecond)
+				cancel()
+			}()
+		}
 		res, err := fg.RangeQuery(ctx, "count(up)", promapi.NewRelativeRange(lb, 5*time.Minute))
 		cancel()
 		r.Case(fmt.Sprint("cancelled", lb), true)
